@@ -173,6 +173,13 @@ vf::Outcome run_case(const vf::Case& c, const vf::RunCtx& ctx) {
       { Guarded g(R, off, fill, X.data()), g2(R, off, fill, Y.data()); MapG m(g.data()); MapCG m2(g2.data()); m = m2; check_write("=Map<const>", g, Y, true); }
       { Guarded g(R, off, fill, X.data()); MapG m(g.data()); m = Y.coeffs(); check_write("=Eigen", g, Y, true); }
       { Guarded g(R, off, fill, X.data()); MapG m(g.data()); GroupT tmp = Y; m = std::move(tmp); check_write("=move", g, Y, true); }
+      // move-assignment from another view copies coefficients; it must not re-seat the view
+      { Guarded g(R, off, fill, X.data()), g2(R, off, fill, Y.data()); MapG m(g.data()), m2(g2.data()); m = std::move(m2); check_write("=move(Map)", g, Y, true);
+        k.require("write.guards:=move(Map)(src)", g2.guards_ok() && std::memcmp(g2.data(), Y.data(), R * sizeof(Scalar)) == 0, "source view modified by move assignment");
+        m.setIdentity();   // a later write through the destination view lands in the destination buffer
+        k.require("=move(Map): view not re-seated", std::memcmp(g.data(), GroupT::Identity().data(), R * sizeof(Scalar)) == 0 && std::memcmp(g2.data(), Y.data(), R * sizeof(Scalar)) == 0,
+                  "after m = std::move(other_view) a write through m went to the other buffer"); }
+      { Guarded g(R, off, fill, X.data()), g2(R, off, fill, Y.data()); MapG m(g.data()); m = MapG(g2.data()); check_write("=temporary Map", g, Y, true); }
       { Guarded g(R, off, fill, X.data()); MapG m(g.data()); m.setIdentity(); check_write("setIdentity", g, GroupT::Identity(), true); }
       { Guarded g(R, off, fill, X.data()); MapG m(g.data()); m.setRandom(); k.require("write.guards:setRandom", g.guards_ok(), "setRandom wrote outside");
         k.bound("setRandom.valid", (double)rot_norm_dev(s, toVL(m.coeffs())), (double)manif::Constants<Scalar>::eps, "setRandom through a view produced an invalid element"); }
@@ -192,6 +199,12 @@ vf::Outcome run_case(const vf::Case& c, const vf::RunCtx& ctx) {
       { Guarded g(D, off, fill, T.data()); MapT m(g.data()); m = U; check_twrite("=owning", g, U); }
       { Guarded g(D, off, fill, T.data()), g2(D, off, fill, U.data()); MapT m(g.data()); MapCT m2(g2.data()); m = m2; check_twrite("=Map<const>", g, U); }
       { Guarded g(D, off, fill, T.data()); MapT m(g.data()); m = U.coeffs(); check_twrite("=Eigen", g, U); }
+      { Guarded g(D, off, fill, T.data()), g2(D, off, fill, U.data()); MapT m(g.data()), m2(g2.data()); m = std::move(m2); check_twrite("=move(Map)", g, U);
+        m.setZero(); k.require("t=move(Map): view not re-seated", std::memcmp(g2.data(), U.data(), D * sizeof(Scalar)) == 0, "after m = std::move(other_view) a write through m went to the other buffer"); }
+      // assignment from an Eigen expression that reads the viewed tangent itself (same result as on an owning tangent)
+      { const Jac A = X.adj(); TangentT w = T; w = A * w.coeffs();
+        Guarded g(D, off, fill, T.data()); MapT m(g.data()); m = A * m.coeffs(); check_twrite("=A*self", g, w);
+        TangentT w2 = T; w2 += A * w2.coeffs(); Guarded g3(D, off, fill, T.data()); MapT m3(g3.data()); m3 += A * m3.coeffs(); check_twrite("+=A*self", g3, w2); }
       { Guarded g(D, off, fill, T.data()); MapT m(g.data()); m.setZero(); check_twrite("setZero", g, TangentT::Zero()); }
       { Guarded g(D, off, fill, T.data()); MapT m(g.data()); m += U; TangentT w = T; w += U; check_twrite("+=", g, w); }
       { Guarded g(D, off, fill, T.data()); MapT m(g.data()); m -= U; TangentT w = T; w -= U; check_twrite("-=", g, w); }
